@@ -177,6 +177,27 @@ def cfgs(tier):
             return {'r': t}
         return {'build': build, 'spec': spec}
 
+    def mux_mixed(k, widths, rw):
+        """inputs of different widths and a result of yet another width: r = ins[sel] reduced modulo 2**width(r)"""
+        n = 1 << k
+
+        def build(s):
+            sel = W(s, 'sel', k)
+            ins = {'i%d' % j: W(s, 'i%d' % j, widths[j % len(widths)]) for j in range(n)}
+            r = W(s, 'r', rw)
+            Mux(s, 'dut', sel, list(ins.values()), r)
+            return dict(ins, sel=sel), {'r': r}
+
+        def fit(v):
+            return z3.Extract(rw - 1, 0, v) if v.size() >= rw else z3.ZeroExt(rw - v.size(), v)
+
+        def spec(V):
+            t = fit(V['i0'])
+            for j in range(1, n):
+                t = z3.If(V['sel'] == j, fit(V['i%d' % j]), t)
+            return {'r': t}
+        return {'build': build, 'spec': spec}
+
     def demux(k, w):
         n = 1 << k
 
@@ -207,6 +228,9 @@ def cfgs(tier):
             yield 'Mux k%d w%d' % (k, w), mux(k, w)
             yield 'Demux k%d w%d' % (k, w), demux(k, w)
         yield 'Decoder k%d' % k, decoder(k)
+    for k, widths, rw in ([(2, [2, 4, 4, 4], 4), (2, [4, 4, 6, 4], 6), (3, [1, 3, 2, 4], 4), (1, [2, 4], 4), (2, [4, 2], 3)] if quick else
+                          [(2, [2, 4, 4, 4], 4), (2, [4, 4, 6, 4], 6), (3, [1, 3, 2, 4], 4), (1, [2, 4], 4), (2, [4, 2], 3), (3, [2, 8], 8), (4, [3, 5, 7], 8), (2, [8, 1, 8, 1], 4)]):
+        yield 'Mux k%d input widths %s r%d' % (k, '/'.join(map(str, widths)), rw), mux_mixed(k, widths, rw)
 
     # ---- one-hot selectors ---------------------------------------------------------------------------
     def at_most_one(V, n):
